@@ -157,7 +157,10 @@ func applyRemovals(actions []pruneAction, dryRun bool, out io.Writer) error {
 	return errors.Join(errs...)
 }
 
-func indexRepositories(repositories []repositorySpec, opts gitindex.Options, out io.Writer) error {
+// indexRepositories indexes repositories. pruned holds the names of
+// repositories whose shards the same run removes first; a dry run reports
+// those as needing an index, since their shards are still on disk.
+func indexRepositories(repositories []repositorySpec, opts gitindex.Options, pruned map[string]struct{}, out io.Writer) error {
 	var errs []error
 	for _, repo := range repositories {
 		repoOpts := opts
@@ -170,6 +173,9 @@ func indexRepositories(repositories []repositorySpec, opts gitindex.Options, out
 		if err != nil {
 			errs = append(errs, fmt.Errorf("index %q from %s: %w", repo.Name, repo.Source, err))
 			continue
+		}
+		if _, ok := pruned[repo.Name]; ok && repoOpts.DryRun {
+			updated = true
 		}
 		if repoOpts.DryRun && updated {
 			fmt.Fprintf(out, "Would index %q from %s\n", repo.Name, repo.Source)
